@@ -118,6 +118,19 @@ def run(ctx):
             n += 1
             if not is_exc(u):
                 check_fixed_point(ctx, u, {"op": op}, ("kernel-colon", op["op"]))
+        # every URL the parser ACCEPTS must render to a string it accepts again - bracketed and bracket-odd authorities included
+        from ..gen import BRACKET_ODD_HOSTS
+
+        for odd in BRACKET_ODD_HOSTS + ["[::1]", "[v1.x]", "[fe80::1%eth0]", "u:p@[::1]:81", "[::1]@h", "u[v1.x]:p@h:1"]:
+            for sch in ("http:", "foo:", ""):
+                for tail in ("/", "/p?q#f", ":8042/p", ""):
+                    op = {"op": "ctor", "s": f"{sch}//{odd}{tail}"}
+                    u = guarded(apply, op)
+                    n += 1
+                    if is_exc(u):
+                        ctx.count("rejected")
+                        continue
+                    check_fixed_point(ctx, u, {"op": op}, ("kernel-brackets", sch, odd[:6], tail[:2]))
         from ..gen import long_urls
 
         for s in long_urls():
